@@ -13,7 +13,7 @@ EXPLANATION = (
     "value provably comes from an integer (finite). R2: RefCount guard discipline (a get_mut while a guard of the "
     "same pointee type may be live panics in the default build). R3: the mania column search `find_available_column(col, None, &[prev_pattern])` "
     "asserts that a column outside `prev_pattern` exists; with the whole column range and that single exclusion set this is exactly "
-    "`prev_pattern.column_with_objs() < total_columns`, which must be an established fact at the call. All other panic/hang corners (integer overflow, "
+    "`prev_pattern.column_with_objs() < total_columns`, which must be an established fact at the call. R4: `clamp(lo, hi)` panics when lo > hi: every clamp whose bounds are not two ordered constants has lo <= hi established — by a dominating comparison of the variable bound, by both bounds being the same value shifted by ordered constants, or by a constant lower bound <= 0 with an upper bound that is non-negative by construction (abs, squares, products and quotients of non-negative parts; local functions read through). NaN bounds are excluded only where a comparison establishes it. All other panic/hang corners (integer overflow, "
     "index arithmetic, empty windows, PRNG column search) are numeric and NOT decided.")
 
 
@@ -135,6 +135,7 @@ def run(ctx):
     ctx.floor('C05-R2', nsites, 90, 'RefCount::get/get_mut sites')
     guardrule.controls(ctx, fx, 'C05-R2')
     r3_free_column(ctx, F)
+    r4_clamp_bounds(ctx, F)
     ctx.assume('all times come through the decoder bound 2^31 and a clock rate >= 0.01, so |t| <= 2.2e11 (f64 ulp <= 3.1e-5); '
                'every f64 step in the accepted loops is >= 1e-4')
     ctx.assume('RefCell permits nested shared borrows (read under read)')
@@ -191,3 +192,158 @@ def r3_free_column(ctx, F):
                             'established on that path: when the previous pattern occupies every column (low key counts) the search has no valid column and '
                             '`assert!(has_valid_column)` panics during conversion' % fn.path)
     ctx.floor('C05-R3', n, 1, 'whole-range column searches excluding only prev_pattern (3 today; one if the prologues share a helper)')
+
+
+# ---- R4: clamp(lo, hi) panics when lo > hi (or a bound is NaN): every clamp whose bounds are not two ordered constants needs lo <= hi established
+NONNEG_CALLS = {'abs', 'sqrt', 'exp', 'exp2', 'cosh', 'len', 'count', 'powi_even', 'hypot', 'norm', 'length', 'dist', 'to_radians_abs'}
+
+
+def _num(v):
+    c = prov.const_val(prov.strip(v, names={'from', 'into'}))
+    try:
+        return float(c)
+    except (TypeError, ValueError):
+        return None
+
+
+def nonneg(F, v, depth=0, _seen=None):
+    """the value tree is >= 0 whenever it is a number: products / quotients / sums of non-negative parts, abs(), even powers, max with a non-negative
+    part, unsigned integers; local functions are read through their return value"""
+    if depth > 14:
+        return False
+    v = prov.strip(v, names={'from', 'into', 'clone', 'copied'})
+    k = v[0]
+    c = _num(v)
+    if c is not None:
+        return c >= 0
+    if k == 'cast':
+        if v[1] in ('IntToFloat', 'IntToInt') and len(v) > 3 and str(v[3]).startswith('u') is False:
+            pass
+        return nonneg(F, v[2], depth + 1)
+    if k == 'phi':
+        return all(nonneg(F, a, depth + 1) for a in v[1])
+    if k == 'field' and v[2] == '0' and v[1][0] == 'binop' and v[1][1].endswith('WithOverflow'):
+        return nonneg(F, ('binop', v[1][1][:-len('WithOverflow')], v[1][2], v[1][3]), depth + 1)
+    if k == 'binop':
+        op = v[1]
+        a, b = v[2], v[3]
+        if op in ('Mul', 'Div', 'Add'):
+            if op == 'Mul' and prov.show(a, maxdepth=12) == prov.show(b, maxdepth=12):
+                return True
+            return nonneg(F, a, depth + 1) and nonneg(F, b, depth + 1)
+        return False
+    if k == 'call':
+        f = v[1]
+        nm = f.get('name')
+        if nm in NONNEG_CALLS and not f.get('local'):
+            return True
+        if nm == 'powi' and len(v[2]) == 2:
+            e = _num(v[2][1])
+            return e is not None and int(e) % 2 == 0
+        if nm == 'max' and len(v[2]) == 2:
+            return nonneg(F, v[2][0], depth + 1) or nonneg(F, v[2][1], depth + 1)
+        if nm == 'min' and len(v[2]) == 2:
+            return nonneg(F, v[2][0], depth + 1) and nonneg(F, v[2][1], depth + 1)
+        if nm == 'clamp' and len(v[2]) == 3:
+            lo = _num(v[2][1])
+            return lo is not None and lo >= 0
+        if f.get('local') and F.fn(f.get('path') or '') is not None:
+            w = prov.inline_call(F, v)
+            if w is not v:
+                return nonneg(F, w, depth + 1)
+    return False
+
+
+def _lin_offset(v):
+    """(base text, constant offset) of `X + c` / `X - c` / X with c a constant expression"""
+    v = prov.strip(v, names={'from', 'into'})
+    if v[0] == 'binop' and v[1] in ('Add', 'Sub'):
+        c = _const_expr(v[3])
+        if c is not None:
+            return prov.show(v[2], maxdepth=10), c if v[1] == 'Add' else -c
+    return prov.show(v, maxdepth=10), 0.0
+
+
+def _const_expr(v):
+    v = prov.strip(v, names={'from', 'into'})
+    c = _num(v)
+    if c is not None:
+        return c
+    if v[0] == 'binop' and v[1] in ('Add', 'Sub', 'Mul', 'Div'):
+        a, b = _const_expr(v[2]), _const_expr(v[3])
+        if a is None or b is None:
+            return None
+        try:
+            return {'Add': a + b, 'Sub': a - b, 'Mul': a * b, 'Div': a / b}[v[1]]
+        except ZeroDivisionError:
+            return None
+    return None
+
+
+def _const_alts(v):
+    """set of constants a value can be (phi of constant expressions, projections of constant tuples resolved by prov), or None"""
+    v = prov.strip(v, names={'from', 'into'})
+    alts = v[1] if v[0] == 'phi' else [v]
+    out = set()
+    for a in alts:
+        c = _const_expr(a)
+        if c is None:
+            return None
+        out.add(c)
+    return out
+
+
+def r4_clamp_bounds(ctx, F):
+    import arms
+    n = nvar = 0
+    for fn in F.fns:
+        P = None
+        for bi, t in fn.calls():
+            f = t['func']
+            if f.get('name') != 'clamp' or f.get('krate') not in ('core', 'std') or len(t['args']) != 3:
+                continue
+            P = P or prov.prov_of(fn)
+            a = P.call_args(bi)
+            lo, hi = a[1], a[2]
+            cl, ch = _const_expr(lo), _const_expr(hi)
+            n += 1
+            key = 'clamp:%s:%s' % (fn.path, prov.show(hi, maxdepth=2)[:40])
+            if cl is not None and ch is not None:
+                ctx.require(cl <= ch, 'C05-R4', key, 'constant bounds %g <= %g' % (cl, ch), fn.where(t.get('ln')),
+                            bad='%s: clamp(%g, %g) has its bounds the wrong way round: it panics on every call' % (fn.path, cl, ch))
+                continue
+            nvar += 1
+            why = None
+            # (a') bounds chosen together from constant pairs (`let (lo, hi) = if c { (1.0, 18.0) } else { (0.0, 10.0) }`): every combination is ordered
+            los, his = _const_alts(lo), _const_alts(hi)
+            if los and his and max(los) <= min(his):
+                why = 'each bound is one of a few constants (%s / %s) and every lower one is <= every upper one' % (sorted(los), sorted(his))
+            # (b) an established comparison of the variable bound with a constant
+            if cl is not None and why is None:
+                his = prov.show(prov.strip(hi, names={'from', 'into'}), maxdepth=10)
+                for c, lab in arms.bool_facts(fn, bi):
+                    c = prov.strip(c, names={'likely', 'unlikely'})
+                    if c[0] == 'binop' and c[1] in ('Gt', 'Ge', 'Lt', 'Le'):
+                        l_, r_ = c[2], c[3]
+                        op = c[1]
+                        if lab == 'false':
+                            continue          # the negation of a float comparison also holds for NaN
+                        if op in ('Lt', 'Le'):
+                            l_, r_, op = r_, l_, {'Lt': 'Gt', 'Le': 'Ge'}[op]
+                        k_ = _const_expr(r_)
+                        if k_ is not None and k_ >= cl and prov.show(prov.strip(l_, names={'from', 'into'}), maxdepth=10) == his:
+                            why = 'the upper bound is known to be %s %g here (which also excludes NaN)' % ('>' if op == 'Gt' else '>=', k_)
+            # (c) X - d .. X + d'
+            if why is None:
+                bl, ol = _lin_offset(lo)
+                bh, oh = _lin_offset(hi)
+                if bl == bh and ol <= oh:
+                    why = 'bounds are the same value shifted by %g and %g' % (ol, oh)
+            # (d) constant lower bound <= 0 and an upper bound that is non-negative by construction
+            if why is None and cl is not None and cl <= 0 and nonneg(F, hi):
+                why = 'lower bound %g, upper bound non-negative by construction (abs / squares / products of non-negative parts)' % cl
+            ctx.require(why is not None, 'C05-R4', key, '%s: clamp(%s, %s): %s' % (fn.path, prov.show(lo, maxdepth=2)[:40], prov.show(hi, maxdepth=2)[:60], why), fn.where(t.get('ln')),
+                        bad='%s: clamp(%s, %s) — nothing establishes lower <= upper: `clamp` panics ("min > max") as soon as the upper bound drops below the lower one, '
+                            'e.g. for a setting at the edge of its documented range' % (fn.path, prov.show(lo, maxdepth=3)[:60], prov.show(hi, maxdepth=5)[:200]))
+    ctx.floor('C05-R4', n, 20, 'clamp calls')
+    ctx.ok('C05-R4', 'scan', '%d clamp calls, %d with a non-constant bound' % (n, nvar))
